@@ -58,6 +58,9 @@ type Options struct {
 	MaxDeviations int
 	// MaxExecutions stops the search (Capped is then set); 0 = none.
 	MaxExecutions int
+	// Stop, when set, is polled before every execution; returning true ends the
+	// search (Capped is then set).
+	Stop func() bool
 	// Shard i of n over subtrees rooted at choice-prefix length ShardDepth.
 	ShardI, ShardN, ShardDepth int
 }
@@ -99,6 +102,10 @@ func Explore(opts Options, body func(c *Ctx)) Stats {
 	var rec func(prefix []int)
 	rec = func(prefix []int) {
 		if st.Capped {
+			return
+		}
+		if opts.Stop != nil && opts.Stop() {
+			st.Capped = true
 			return
 		}
 		if opts.ShardN > 1 && len(prefix) >= opts.ShardDepth && owner(prefix, opts.ShardDepth, opts.ShardN) != opts.ShardI {
